@@ -149,7 +149,11 @@ func (r *Report) guard(limit time.Duration, v Violation, fn func()) {
 	select {
 	case <-done:
 		if pv != nil {
-			panic(pv)
+			// a panic of the implementation (or of an oracle working on its output) on this input is a result, not
+			// the end of the campaign
+			v.Sig = "panic/" + v.Sig
+			v.Detail = fmt.Sprintf("PANIC: %v; %s", pv, v.Detail)
+			r.violate(v)
 		}
 	case <-time.After(limit):
 		r.mu.Lock()
